@@ -193,7 +193,11 @@ let set_targets (r : set_req) =
            @ List.map (function Some u -> of_path u.u_path | None -> []) (r.s_replace @ r.s_update) in
   List.map (fun t -> if pt <> [] then pt else t) ts
 
+(* fixes/C12-3: a decimal with precision >= 64 makes onos-api's strDecimal64 divide by zero *)
+let is_div_zero obs = is_panic_obs obs && (try ignore (Str.search_forward (Str.regexp_string "divide by zero") (panic_text obs) 0); true with Not_found -> false)
+
 let monitor_panic id handler obs narrow =
+  let narrow = if is_div_zero obs then Some "c12_decimal_precision_divide_by_zero" else narrow in
   if is_panic_obs obs then begin
     stat ("panic." ^ handler);
     specviol id (match narrow with Some s -> s | None -> "c12_panic_" ^ handler)
@@ -268,9 +272,10 @@ let () =
       let txt = str_of (unhex detail) in
       let txt = if String.length txt > 300 then String.sub txt 0 300 else txt in
       (* fixes/C12-2: a Set whose delete path is not a valid path stored a nil change value *)
-      let narrow = kind = "set" && (try ignore (Str.search_forward (Str.regexp_string "reconcileInitialize") txt 0); true with Not_found ->
+      let divz = (try ignore (Str.search_forward (Str.regexp_string "divide by zero") (str_of (unhex detail)) 0); true with Not_found -> false) in
+      let narrow = (not divz) && kind = "set" && (try ignore (Str.search_forward (Str.regexp_string "reconcileInitialize") txt 0); true with Not_found ->
           (try ignore (Str.search_forward (Str.regexp_string "controller/v2/transaction") (str_of (unhex detail)) 0); true with Not_found -> false)) in
-      specviol id (if narrow then "c12_invalid_delete_path_crashes_controller" else "c12_process_crash")
+      specviol id (if divz then "c12_decimal_precision_divide_by_zero" else if narrow then "c12_invalid_delete_path_crashes_controller" else "c12_process_crash")
         (Printf.sprintf "the server process died while / after handling %s request %s: %s" kind
            (if String.length wire > 200 then String.sub wire 0 200 ^ ".." else wire) txt)
     | _ -> stat "ignored")
